@@ -251,4 +251,7 @@ end Mouette.Generated.C18H
 """
         _, sha = T.write_generated("C18Hist", body)
         for r in recs: r["detail"] = f"{r['detail']} [file sha {sha}]"
+    if not all(r["ok"] for r in recs):
+        from .c18stranslate import write_stub
+        write_stub("C18Hist", recs)          # never leave the file of an earlier tree on disk
     return recs
